@@ -3,7 +3,7 @@
    compared bit for bit (feqb: +0/-0 distinguished, NaNs identified); plus an
    exact rational residual check of Go's output (no float arithmetic trusted). *)
 From Coq Require Import List Bool Arith ZArith QArith Qabs Floats SpecFloat.
-From ADV Require Import Base.Num Base.Corr C04.Model C04.Model2.
+From ADV Require Import Base.Num Base.Corr C04.Model C04.Model2 C04.ModelV C04.ModelV2.
 Import ListNotations.
 Local Open Scope nat_scope.
 
@@ -114,7 +114,23 @@ Inductive kase :=
 | KTInv (et : nat) (mode : nat) (n : nat) (msknil : bool) (msk : list bool) (m : fmat) (res : outcome fmat)
 | KTBS (et : nat) (n : nat) (A : fmat) (hasb : bool) (b : fvec) (res : fvec)
 | KTDet (et : nat) (n : nat) (a : fmat) (res : float)
-| KTDetPD (et : nat) (logscale : bool) (n : nat) (a : fmat) (logs : list (float * float)) (res : outcome float).
+| KTDetPD (et : nat) (logscale : bool) (n : nat) (a : fmat) (logs : list (float * float)) (res : outcome float)
+(* round 6 — one WORKSPACE (R x C storage, dumped whole before and after a call) and the views
+   (constructor chain, n, logical content before, logical content after as the library reads it)
+   the call's operands / in-situ buffers were: every header is a well-formed n x n view, the
+   workspace held the logical input at the cells the view denotes, and AFTER the call the workspace
+   is the old one with the logical results written through the views — every other cell unchanged *)
+| KVW (R C : nat) (before : fvec) (vs : list (list vop * nat * fmat * fmat)) (after : fvec)
+(* gaussJordan.Run on views a, x of two workspaces: the element-level model gj_run_v (SwapRows on the
+   storages), bit for bit on both whole workspaces and b *)
+| KVGJ (et : nat) (ut : bool) (n : nat) (msk : list bool)
+       (Ra Ca : nat) (opsa : list vop) (wa0 : fvec) (Rx Cx : nat) (opsx : list vop) (wx0 : fvec) (b : fvec)
+       (res : outcome (fvec * fvec * fvec))
+(* matrixInverse.Run(m, [UpperTriangular], [Submatrix], &InSitu{A, Id}) with A, Id views of two workspaces (modes 0, 1):
+   m_inverse_v on the whole workspaces *)
+| KVInv (et : nat) (ut : bool) (n : nat) (msknil : bool) (msk : list bool)
+        (RA CA : nat) (opsA : list vop) (wA0 : fvec) (RI CI : nat) (opsI : list vop) (wI0 : fvec) (m : fmat)
+        (res : outcome (fvec * fvec)).
 
 Definition check (c : kase) : bool :=
   match c with
@@ -154,6 +170,30 @@ Definition check (c : kase) : bool :=
   | KTDet et n a res => feqb (det_naive (num_of et) n (inm et a)) res
   | KTDetPD et logscale n a logs res =>
       out_eqb feqb (det_pd_insitu (num_of et) (lg_of et logs) logscale n None (inm et a)) res
+  | KVW R C before vs after =>
+      Nat.eqb (length before) (R * C) &&
+      forallb (fun v => match v with (ops, n, lin, _) =>
+                 let h := view_of R C ops in
+                 view_ok (length before) n h && meq (vload NumF n before h) lin end) vs &&
+      veq (fold_left (fun s v => match v with (ops, n, _, lout) => vstore NumF n s (view_of R C ops) lout end) vs before)
+          after
+  | KVGJ et ut n msk Ra Ca opsa wa0 Rx Cx opsx wx0 b res =>
+      let ha := view_of Ra Ca opsa in let hx := view_of Rx Cx opsx in
+      view_ok (length wa0) n ha && view_ok (length wx0) n hx &&
+      out_eqb (fun s t => veq (wa s) (wa t) && veq (wx s) (wx t) && veq (vb s) (vb t))
+              (gj_run_v (num_of et) (dense_of et) ut n msk ha hx (mkV wa0 wx0 b))
+              (match res with
+               | Ok (a', x', b') => Ok (mkV a' x' b')
+               | ErrSingular => ErrSingular | PanicSingular => PanicSingular | ErrNotPD => ErrNotPD
+               | ErrPerm => ErrPerm | PanicIndex => PanicIndex | OutOfFuel => OutOfFuel end)
+  | KVInv et ut n msknil msk RA CA opsA wA0 RI CI opsI wI0 m res =>
+      let hA := view_of RA CA opsA in let hI := view_of RI CI opsI in
+      view_ok (length wA0) n hA && view_ok (length wI0) n hI &&
+      match m_inverse_v (num_of et) (dense_of et) ut n (if msknil then None else Some msk) hA hI wA0 wI0 None (inm et m), res with
+      | Ok v, Ok (a', i') => veq (wa v) a' && veq (wx v) i'
+      | ErrSingular, ErrSingular => true
+      | _, _ => false
+      end
   end.
 
 Definition mism (cs : list kase) : list nat := mismatches check cs.
